@@ -29,6 +29,8 @@ package main
 //	            isNewSource with every record
 //	  fetch   (ti part (off epoch kind) ...)   records appended to the partition's log; kind 0 {"o":..} 1 empty value
 //	            2 not JSON 3 longer than maxEventSize (kinds 1..3 never leave Pipeline.In in mode 1)
+//	            4 {"o":..,"x":"1"} (mode 2 only: mode 1 + an action that discards these records + an output that
+//	            acknowledges 2..8 ms late; a discarded record is never handed to the output and never committed)
 //	  the 4th element: records in the log before the first Start
 //	  phase   ((op ...) end): one plugin lifetime. Start, wait until every partition has been fetched from and everything
 //	          to be expected has been delivered; then the ops:
@@ -98,11 +100,13 @@ type c10GEvent struct {
 }
 
 type c10Sink struct {
-	mu      sync.Mutex
-	evs     []*c10GEvent
-	metaBad bool
-	idBy    map[string]int
-	meta    int // 0 no templates; 1 templates, the topic is checked; 2 templates, topic, partition and offset are checked
+	mu       sync.Mutex
+	evs      []*c10GEvent
+	metaBad  bool
+	discards int // mode 2: events the discarding action answered ActionDiscard for
+	late     bool
+	idBy     map[string]int
+	meta     int // 0 no templates; 1 templates, the topic is checked; 2 templates, topic, partition and offset are checked
 }
 
 func (s *c10Sink) add(e *c10GEvent) {
@@ -177,6 +181,15 @@ func (o *c10GOut) Out(e *pipeline.Event) {
 		}
 	}
 	ge := &c10GEvent{sid: e.SourceID, off: e.Offset, committed: true}
+	if o.s.late {
+		// mode 2: the acknowledgement comes 2..8 ms later from another goroutine; the event counts as delivered then
+		go func(d time.Duration) {
+			time.Sleep(d)
+			o.ctl.Commit(e)
+			o.s.add(ge)
+		}(time.Duration(2+3*(uint64(e.Offset>>16)%3)) * time.Millisecond)
+		return
+	}
 	o.ctl.Commit(e) // Pipeline.Commit -> finalize -> the real Plugin.Commit; the event object is recycled after this
 	o.s.add(ge)
 }
@@ -193,12 +206,31 @@ type c10Life struct {
 	out      *c10GOut
 	sink     *c10Sink
 	want     int
+	wantDisc int
 	stuck    bool
 	panic_   string
 	clientID string
 }
 
 func c10Deliverable(g c10GCfg, kind int) bool { return g.mode == 0 || kind == 0 }
+
+// mode 2 = mode 1 with a discarding action in front of an output that acknowledges LATE: a record of kind 4
+// ({"o":..,"x":"1"}) is discarded by the action (ActionDiscard; never handed to the output, never acknowledged), the
+// output acknowledges every other record 2..8 ms after Out from a goroutine of its own.  While a record waits there, later
+// records of its partition are discarded in the other processors (spread routing): what the member marks and what the
+// broker stores must belong to records the output acknowledged, never to a record that was only discarded.
+func c10Discarded(g c10GCfg, kind int) bool { return g.mode == 2 && kind == 4 }
+
+type c10GDiscard struct{ s *c10Sink }
+
+func (a *c10GDiscard) Start(pipeline.AnyConfig, *pipeline.ActionPluginParams) {}
+func (a *c10GDiscard) Stop()                                                  {}
+func (a *c10GDiscard) Do(*pipeline.Event) pipeline.ActionResult {
+	a.s.mu.Lock()
+	a.s.discards++
+	a.s.mu.Unlock()
+	return pipeline.ActionDiscard
+}
 
 func c10Value(off int64, kind int, maxSize int) []byte {
 	switch kind {
@@ -208,6 +240,8 @@ func c10Value(off int64, kind int, maxSize int) []byte {
 		return []byte("not json " + strconv.FormatInt(off, 10))
 	case 3:
 		return []byte(`{"o":` + strconv.FormatInt(off, 10) + `,"pad":"` + strings.Repeat("x", maxSize) + `"}`)
+	case 4:
+		return []byte(`{"o":` + strconv.FormatInt(off, 10) + `,"x":"1"}`)
 	}
 	return []byte(`{"o":` + strconv.FormatInt(off, 10) + `}`)
 }
@@ -306,6 +340,15 @@ func (l *c10Life) start() {
 			PluginStaticInfo:  &pipeline.PluginStaticInfo{Type: "kafka", Config: c},
 			PluginRuntimeInfo: &pipeline.PluginRuntimeInfo{Plugin: l.plug},
 		})
+		if l.g.mode == 2 {
+			l.sink.late = true
+			sink := l.sink
+			l.pipe.AddAction(&pipeline.ActionPluginStaticInfo{
+				PluginStaticInfo: &pipeline.PluginStaticInfo{Type: "verifdiscard", Factory: func() (pipeline.AnyPlugin, pipeline.AnyConfig) { return &c10GDiscard{s: sink}, nil }},
+				MetricName:       "discard", MatchMode: pipeline.MatchModeAnd,
+				MatchConditions: pipeline.MatchConditions{{Field: []string{"x"}, Values: []string{"1"}}},
+			})
+		}
 		l.out = &c10GOut{s: l.sink}
 		l.pipe.SetOutput(&pipeline.OutputPluginInfo{
 			PluginStaticInfo:  &pipeline.PluginStaticInfo{Type: "verifhold"},
@@ -338,6 +381,9 @@ func (l *c10Life) establish() {
 			if r.off >= pos && c10Deliverable(l.g, r.kind) {
 				exp++
 			}
+			if r.off >= pos && c10Discarded(l.g, r.kind) {
+				l.wantDisc++
+			}
 		}
 	}
 	b.mu.Unlock()
@@ -355,7 +401,17 @@ func (l *c10Life) establish() {
 	l.quiesce()
 }
 
-func (l *c10Life) quiesce() { l.waitFor(func() bool { return l.sink.count() >= l.want }) }
+func (l *c10Life) quiesce() {
+	l.waitFor(func() bool { return l.sink.count() >= l.want })
+	if l.g.mode == 2 {
+		l.waitFor(func() bool {
+			l.sink.mu.Lock()
+			defer l.sink.mu.Unlock()
+			return l.sink.discards >= l.wantDisc
+		})
+		time.Sleep(3 * time.Millisecond) // what a discard does after the action's answer (finalize) has happened by then
+	}
+}
 
 func (l *c10Life) produce(fs []c10GFetch) {
 	for _, f := range fs {
@@ -363,6 +419,9 @@ func (l *c10Life) produce(fs []c10GFetch) {
 		for _, r := range f.recs {
 			if c10Deliverable(l.g, r.kind) {
 				l.want++
+			}
+			if c10Discarded(l.g, r.kind) {
+				l.wantDisc++
 			}
 		}
 	}
@@ -378,7 +437,7 @@ func (l *c10Life) flat() []*c10GEvent {
 		if evs[i].sid != evs[j].sid {
 			return evs[i].sid < evs[j].sid
 		}
-		return l.g.mode == 1 && evs[i].off < evs[j].off
+		return l.g.mode >= 1 && evs[i].off < evs[j].off
 	})
 	return evs
 }
@@ -393,7 +452,7 @@ func (l *c10Life) commit(ks []int64) []hx.Sx {
 	l.quiesce()
 	var steps []hx.Sx
 	flat := l.flat()
-	if len(flat) == 0 || l.stuck || l.g.mode == 1 {
+	if len(flat) == 0 || l.stuck || l.g.mode >= 1 {
 		return nil
 	}
 	for _, k := range ks {
